@@ -179,8 +179,11 @@ impl Transaction {
                 //   return Ok(hex::decode("0000000000000000000000000000000000000000000000000000000000000001").map_err(|e| anyhow!(e))?)
                 // }
 
-                let txout = tx.get_output(n_tx_in).ok_or_else(|| BSVErrors::OutOfBounds(format!("Could not get TxOut at index {}", n_tx_in)))?;
-                tx.outputs = vec![txout];
+                if tx.get_output(n_tx_in).is_none() {
+                    return Err(BSVErrors::OutOfBounds(format!("Could not get TxOut at index {}", n_tx_in)));
+                }
+                // Keep outputs up to and including the signed one; the earlier ones are blanked (value -1, empty script)
+                tx.outputs.truncate(n_tx_in + 1);
 
                 for i in 0..tx.outputs.len() {
                     if i < n_tx_in {
